@@ -167,6 +167,41 @@ func c09Check(w *World) []Violation {
 			continue
 		}
 		legal := contains(c09Legal[from], to)
+		if legal && to == "Restarting" {
+			// Restarting means "waiting to be relaunched": not after a command that was brought down by a stop
+			// request (the last command died from a signal of the supervisor that followed a stop / restart /
+			// shutdown request issued after its launch)
+			lastStart, lastExit := -1, -1
+			for j := 0; j < i; j++ {
+				if tr[j].Proc == key0(e.Proc) && tr[j].Kind == "start" {
+					lastStart = j
+				}
+				if tr[j].Proc == key0(e.Proc) && tr[j].Kind == "exit" {
+					lastExit = j
+				}
+			}
+			if lastExit > lastStart && lastStart >= 0 && tr[lastExit].Flag {
+				sig := -1
+				for j := lastStart; j < lastExit; j++ {
+					if tr[j].Proc == key0(e.Proc) && tr[j].Kind == "signal" {
+						sig = j
+						break
+					}
+				}
+				for j := lastStart; j < sig; j++ {
+					if tr[j].Kind == "api-call" && (tr[j].Data == "stop("+e.Proc+")" || tr[j].Data == "restart("+e.Proc+")" || strings.HasPrefix(tr[j].Data, "shutdown")) {
+						legal = false
+						vs = append(vs, viol("C09", "illegal-transition:"+from+"->Restarting:after-stop-request", "process %s: %s -> Restarting at t=%v although its command was brought down by %s", e.Proc, from, e.T, tr[j].Data))
+						break
+					}
+				}
+				if !legal {
+					cur[e.Proc] = to
+					entered[e.Proc] = i
+					continue
+				}
+			}
+		}
 		if !legal && from == "Pending" && to == "Completed" {
 			// stopped before start: legal when a stop / restart / shutdown was requested, or an
 			// exit_on_* process has already ended (internal project shutdown)
